@@ -145,6 +145,12 @@ def make_field(cc, node, built, path):
             built.log.append(("getter", path, id(cfg)))
             return path if ret == "path" else ret
 
+        ann = p.get("ret_annotation")
+        if ann:
+            glb = {"_g": getter}
+            exec("def getter(cfg) -> %s:\n    return _g(cfg)\n" % ann, glb)  # noqa: S102 - harness generated source
+            getter = glb["getter"]
+
         setter = None
         if p.get("setter"):
             def setter(cfg, value, path=path):
